@@ -320,6 +320,6 @@ var songs = ev.NewCheck("C20", "songs",
 	"rapid: songs of 1..12 bars; time signatures numerator 1..24 over denominators 1,2,4,8,16,32 with bars of at most 255 thirty-seconds (biased to 6/8, 9/8, 12/8, 7/4, 15/16), bars inheriting the previous signature; resolutions divisible by 8 (24..15360); up to 8 tracks; per bar 0..5 events (NoteOn velocity > 0 with a duration ending within the song, control/program change, sysex) at any in-bar position; oracle = independent bar/grid model: bar start = sum of previous num*32/den * res/8, event at start+pos*t32, NoteOff at start+(pos+dur)*t32, time-signature event at every change relative to 4/4, every track ends at the song end, no wrapped delta; ToSMF0 and the union of ToSMF1 must equal the model (hence each other) as multisets of (tick, bytes), ToSMF1 assigns events to tracks by TrackNo; non-trivial = >= 2 bars, a bar with numerator >= 8 and an event in or after it in a later bar; distinct by case hash",
 	genCase, run)
 
-func TestPropSongs(t *testing.T) { songs.Rapid(t, 500, 60000) }
+func TestPropSongs(t *testing.T) { songs.Rapid(t, 3000, 60000) }
 
 func TestReplay(t *testing.T) { ev.ReplayAll(t) }
